@@ -10,6 +10,8 @@ pub ghost enum Comp { RootDir, CurDir, ParentDir, Normal(Name) }
 pub type Comps = Seq<Comp>;
 pub open spec fn abs_comps(v: PathV) -> Comps { seq![Comp::RootDir] + v.map_values(|n: Name| Comp::Normal(n)) }
 pub open spec fn root() -> PathV { Seq::<Name>::empty() }
+// subtree vocabulary: a is a component prefix of p
+pub open spec fn in_sub(a: PathV, p: PathV) -> bool { a.len() <= p.len() && p.take(a.len() as int) == a }
 
 #[verifier::external_body]
 pub struct PathBuf { x: std::path::PathBuf }
@@ -61,6 +63,21 @@ impl PathBuf {
         ensures self.abs_clean() && self@.len() == 0 ==> r is Err && r->Err_0.kind == ErrKind::ParentNotFound,
                 self.abs_clean() && self@.len() > 0 ==> r is Ok && r->Ok_0@ == self@.drop_last() && r->Ok_0.abs_clean() && r->Ok_0.comps() == abs_comps(self@.drop_last()),
     { unimplemented!() }
+    // Path::starts_with is component-wise; `!=` on paths
+    #[verifier::external_body]
+    pub fn starts_with(&self, o: &PathBuf) -> (b: bool) ensures (self.abs_clean() && o.abs_clean()) ==> b == in_sub(o@, self@) { unimplemented!() }
+    #[verifier::external_body]
+    pub fn ne(&self, o: &PathBuf) -> (b: bool) ensures (self.abs_clean() && o.abs_clean()) ==> b == (self@ != o@) { unimplemented!() }
+    // Path::file_name on an absolute clean path: the last name, None for the root
+    #[verifier::external_body]
+    pub fn file_name(&self) -> (r: Option<NameStr>)
+        ensures self.abs_clean() && self@.len() == 0 ==> r is None,
+                self.abs_clean() && self@.len() > 0 ==> r is Some && r->Some_0@ == self@.last(),
+    { unimplemented!() }
+    #[verifier::external_body]
+    pub fn has_root(&self) -> (b: bool) ensures self.abs_clean() ==> b { unimplemented!() }
+    #[verifier::external_body]
+    pub fn is_relative(&self) -> (b: bool) ensures self.abs_clean() ==> !b { unimplemented!() }
     // std Path::parent on an absolute clean path: None for the root, otherwise the path without its last name
     #[verifier::external_body]
     pub fn parent(&self) -> (r: Option<&PathBuf>)
